@@ -1051,8 +1051,30 @@ fn run_timeout(case_seed: u64, r: &mut Report) {
     r.count("programs:timeout", 1);
 }
 
+
+/// minimal witness of the known defect (`--probe 1`)
+fn probe() {
+    let e = RelationalEngine::with_config(cfg(10_000_000));
+    e.create_table(T, schema()).unwrap();
+    e.create_index(T, "k").unwrap();
+    e.create_btree_index(T, "v").unwrap();
+    let t1 = e.begin_transaction();
+    let t2 = e.begin_transaction();
+    let id = e.tx_insert(t1, T, to_map(&[Value::Int(1), Value::Int(5), Value::Null, Value::Float(0.0)])).unwrap();
+    let del = e.tx_delete(t2, T, Condition::Eq("_id".into(), Value::Int(id as i64)));
+    println!("t1 inserts row {}; t2 tx_delete(_id = {}) -> {:?} (row locked: {})", id, id, del, e.tx_manager().is_row_locked(T, id));
+    println!("t1 rollback -> {:?}", e.rollback(t1));
+    println!("t2 rollback -> {:?}", e.rollback(t2));
+    let ids = |c: Condition| e.select(T, c).map(|r| r.iter().map(|x| x.id).collect::<Vec<_>>());
+    println!("after both rolled back: select(True) {:?}, via hash index Eq(k,1) {:?}, via ordered index Ge(v,0) {:?}", ids(Condition::True), ids(Condition::Eq("k".into(), Value::Int(1))), ids(Condition::Ge("v".into(), Value::Int(0))));
+}
+
 fn main() {
     let args = Args::parse();
+    if args.extra.contains_key("probe") {
+        probe();
+        return;
+    }
     let started = Instant::now();
     quiet_panics();
     let mut total = Report::new();
